@@ -352,6 +352,12 @@ static ares_status_t parse_nameserver(ares_buf_t *buf, ares_sconfig_t *sconfig)
       return status;
     }
 
+    /* Up to 5 digits were read, reject values that do not fit a port number
+     * instead of silently truncating them */
+    if (atoi(portstr) > 65535) {
+      return ARES_EBADSTR;
+    }
+
     sconfig->udp_port = (unsigned short)atoi(portstr);
     sconfig->tcp_port = sconfig->udp_port;
   }
